@@ -208,6 +208,26 @@ Definition fs_copytree (tree : fs) (p : fpath) (f : fs) : res fs :=
   else do g <- fs_mkdir_p p f;
        ROk (fold_left (fun acc e => fs_set (p ++ fst e) (snd e) acc) tree g).
 
+(* shutil.copytree(src, join(base, s)) where s may contain '..' / '.' / '//':
+   os.makedirs(dst) (exist_ok=False) works on the LEXICAL path: every proper lexical prefix that does
+   not exist is created (so 'a/x/../y' leaves an empty 'a/x' behind), FileExistsError on the way is
+   swallowed, and only the final mkdir insists that the directory is new *)
+Definition fs_copytree_lex (tree : fs) (base : fpath) (s : str) (f : fs) : res fs :=
+  if starts_slash s then ROod else
+  let comps := filter (fun c => negb (is_empty c || str_eqb c dot)) (split 47 s) in
+  match resolve_comps (rev base) comps with
+  | None => ROod
+  | Some p =>
+      do g <- fold_left (fun acc cs => do g <- acc;
+                 match resolve_comps (rev base) cs with
+                 | None => ROod
+                 | Some q => fs_mkdir_p q g
+                 end) (removelast (lex_prefixes [] comps)) (ROk f);
+      if fs_exists p g then RExn EOSError
+      else do h <- fs_mkdir_p p g;
+           ROk (fold_left (fun acc e => fs_set (p ++ fst e) (snd e) acc) tree h)
+  end.
+
 (* canonical listing: sorted by component list *)
 Fixpoint fins (x : fpath * fnode) (l : fs) : fs :=
   match l with
@@ -524,9 +544,9 @@ Definition fold_partial {A B} (step : A -> B -> res A) (l : list B) (a0 : A) : p
 Definition export_dir_step (f : fs) (jd : job * str) : res fs :=
   let '(j, dst) := jd in
   let full := pjoin2 TARGET_STR dst in
-  match resolve [] (dirname (normpath full)), resolve [] full with
-  | Some par, Some p => do g <- fs_mkdir_p par f; fs_copytree (j_files j) p g
-  | _, _ => ROod
+  match resolve [] (dirname (normpath full)) with
+  | Some par => do g <- fs_mkdir_p par f; fs_copytree_lex (j_files j) [] full g
+  | None => ROod
   end.
 
 (* os.walk(src) under a given listing order: (directory relative to src, file name, bytes) *)
